@@ -456,5 +456,12 @@ def run(chk, fb, tier):
     _d3(chk, fb)
     _erase_advance(chk, fb)
     _d4(chk, fb)
+    from . import copyrule
+    chk.rule("DC", "copy constructor and copy assignment of the range collections copy the same members, and operator= empties the owned list on every path (self-assignment excepted) before re-populating it")
+    copyrule.check(chk, fb, "DC", lambda c: c["file"].endswith("Bpp/Numeric/Range.h"), floor=2)
+    from . import argswap as _argswap
+    chk.rule("DA", "argument/parameter name agreement at forwarding calls in the anchored units (same-typed parameters must not be swapped)")
+    _af = ('src/Bpp/Numeric/Range.h',)
+    _argswap.check(chk, fb, "DA", [f_ for f_ in fb.concrete_fns() if f_.body is not None and any(f_.relfile.endswith(x_) for x_ in _af)], 1)
     chk.assume("E3: coordinates totally ordered (no NaN); arithmetic on coordinates occurs only in shift/length, which are outside D1")
     chk.assume("the literal 0 written by sliceWith is modelled as an arbitrary fixed coordinate: the oracle only requires the result to be empty")
